@@ -97,7 +97,7 @@ def verify(name, tier="quick", keep=False):
             for l in p.stdout.splitlines():
                 if l.startswith("VIOLATION"):
                     pth = l.split("replay=")[1].strip()
-                    if os.path.exists(pth) and pth.startswith("/verif/replays/"):
+                    if os.path.exists(pth):
                         os.remove(pth)
         elif p.returncode not in (0, 1):
             chk["output_tail"] = p.stdout[-500:]
